@@ -294,7 +294,21 @@ func (e *SeqExplorer) runPath(ctx context.Context, boot *pgsim.DB, path []Op) (*
 			info.DumpPrev = pg.DumpFiltered(false, dumpFilter)
 			info.RefPrev = refs[name].Clone()
 		}
+		if op.DeadlockAt > 0 {
+			n, at := 0, op.DeadlockAt
+			w.Hook = func(_ context.Context, _ *pgsim.Session, hop, _ string) error {
+				if hop != "exec" && hop != "query" {
+					return nil
+				}
+				n++
+				if n == at {
+					return &pgsim.StmtFault{Code: "40P01", Msg: "deadlock detected"}
+				}
+				return nil
+			}
+		}
 		out := Apply(ctx, c, op)
+		w.Hook = nil
 		if out.Class == "ENGINE" {
 			return nil, nil, fmt.Errorf("engine error in %s: %v", op, out.Err)
 		}
